@@ -91,6 +91,38 @@ def tree_hash(root):
     return h.hexdigest()
 
 
+def refresh_dependency_builds(scratch, target=None):
+    """The scratch tree is re-created by rsync with the ORIGINAL modification times, while cargo decides freshness of the
+    path dependencies (ethercrab-wire, ethercrab-wire-derive: separate crates, not touched by the harness injection) by
+    comparing source mtimes with its build outputs.  After a run against a tree in which one of those crates was changed
+    (a seeded change, a fix), the next run against other sources would silently reuse the stale build - e.g. a stale derive
+    macro.  A stamp of the dependency sources is kept next to the build outputs; when it differs, every source file of those
+    crates is touched so that cargo rebuilds them."""
+    h = hashlib.sha256()
+    files = []
+    for sub in ("ethercrab-wire", "ethercrab-wire-derive"):
+        root = os.path.join(scratch, sub)
+        for dp, dn, fn in os.walk(root):
+            dn[:] = sorted(d for d in dn if d not in ("target", ".git"))
+            for f in sorted(fn):
+                if f.endswith((".rs", ".toml")):
+                    p = os.path.join(dp, f)
+                    files.append(p)
+                    h.update(p[len(scratch):].encode())
+                    h.update(open(p, "rb").read())
+    target = target or TARGET
+    stamp = os.path.join(target, "verif_deps.stamp")
+    cur = h.hexdigest()
+    old = open(stamp).read().strip() if os.path.exists(stamp) else ""
+    if cur != old:
+        now = time.time()
+        for p in files:
+            os.utime(p, (now, now))
+        os.makedirs(target, exist_ok=True)
+        with open(stamp, "w") as fh:
+            fh.write(cur)
+
+
 def prepare_scratch(repo, groups, scratch):
     """rsync repo -> scratch and inject.  Returns list of notes; raises LostAnchor."""
     os.makedirs(scratch, exist_ok=True)
@@ -281,6 +313,7 @@ def run_groups(group_names, repo, work, prop, tier, seed):
                                     errors=0, trusted=[], notes=[f"LOST-ANCHOR: {e2}"]))
                 return out
         th = tree_hash(scratch)
+        refresh_dependency_builds(scratch)
         # generated wire groups are run in one cargo-kani invocation (one build, many harnesses)
         gen = [g for g in wanted if g.get("generated")]
         for g in wanted:
@@ -439,6 +472,7 @@ def replay(path, repo):
     os.makedirs(SCRATCH_ROOT, exist_ok=True)
     try:
         prepare_scratch(repo, [g], scratch)
+        refresh_dependency_builds(scratch, os.path.join(VERIF, ".cache", "replay_target"))
         # the real dumps are needed by cfg(test) code
         subprocess.run(["rsync", "-a", repo.rstrip("/") + "/dumps/", scratch + "/dumps/"], check=False)
         vals = ";".join(",".join(str(b) for b in v) for v in rp["values"])
